@@ -174,6 +174,10 @@ func (t *decTr) stmt(s ast.Stmt) string {
 				return "DRange " + q(v.Name) + " " + q(t.render(x.X)) + " " + body
 			}
 		}
+	case *ast.BranchStmt:
+		if x.Tok == token.CONTINUE && x.Label == nil {
+			return "DContinue"
+		}
 	case *ast.DeferStmt:
 		// defer f(...): recorded where it is registered
 		return "DCall " + q("defer "+t.render(x.Call))
